@@ -626,9 +626,19 @@ func runC13Inner(c *C13Case) (res c13Result) { //nolint:cyclop,gocyclo,maintidx
 				// server is gone): Close may report that, but the socket is closed all the same
 				csock.FailWrites(1)
 			}
+			if op.N == 1 && !c.Reader {
+				_ = relay.SetReadDeadline(time.Now().Add(-time.Second)) // an expired deadline is still set when the socket is closed
+			}
 			_ = relay.Close()
 			synctest.Wait()
 			csock.FailWrites(0)
+			if op.N == 1 && !c.Reader {
+				_, _, rerr := relay.ReadFrom(make([]byte, 64))
+				var ne net.Error
+				if rerr == nil || (errors.As(rerr, &ne) && ne.Timeout()) {
+					fail("closed-socket-reports-timeout", "%s: ReadFrom on the closed relayed socket (read deadline in the past) returned %v instead of the closed error", ctx, rerr)
+				}
+			}
 			if op.Again > 0 {
 				if _, werr := relay.WriteTo([]byte("after close"), peer13(0)); werr == nil {
 					fail("write-after-close", "%s: WriteTo succeeds after Close (whose Refresh could not be written)", ctx)
@@ -777,6 +787,9 @@ func genC13(rt *rapid.T) *C13Case {
 				op.N = 1
 			} else if rapid.IntRange(0, 2).Draw(rt, "closeWriteFails") == 0 {
 				op.Again = 1 // (for close: the Refresh of Close cannot be written)
+			}
+			if op.Kind == "close" && rapid.IntRange(0, 2).Draw(rt, "closePastDeadline") == 0 {
+				op.N = 1 // (for close: an expired read deadline is set at that moment)
 			}
 		}
 		c.Ops = append(c.Ops, op)
